@@ -84,10 +84,20 @@ var procStart = time.Now()
 // is left: without it the first parts of a test use the whole budget on their deepest level and the last ones starve.
 func Share(deadline time.Time, i, n int) time.Time {
 	rem := time.Until(deadline)
-	if rem <= 0 || n-i <= 1 {
+	k := n - i
+	if rem <= 0 || k <= 1 {
 		return deadline
 	}
-	return time.Now().Add(rem / time.Duration(n-i))
+	// up to twice the even share (most parts finish well below theirs and hand the rest on), but never so much
+	// that the parts still to come are left with less than two seconds each
+	slice := 2 * rem / time.Duration(k)
+	if most := rem - time.Duration(k-1)*2*time.Second; slice > most {
+		slice = most
+	}
+	if even := rem / time.Duration(k); slice < even {
+		slice = even
+	}
+	return time.Now().Add(slice)
 }
 
 func New(property, part string) *Report {
